@@ -2,6 +2,7 @@
 import json
 import os
 import sys
+import time
 import traceback
 import warnings
 from collections import Counter
@@ -74,6 +75,64 @@ def _install_monitors():
     mon.set_events(TOOL, E.LINE | E.RAISE)
 
 
+# ---------------------------------------------------------------- hang guard
+# A case that is still running after GRACE seconds of wall clock is not judged by the
+# clock: the alarm only switches on a LINE counter over lena code (own tool id), and the
+# verdict "non-termination" is taken when the case executes HANG_STEPS further lena lines
+# without finishing.  The witness names the code object that was looping.
+HANG_TOOL = 5
+HANG_GRACE_S = float(os.environ.get("VERIF_HANG_GRACE_S", "90"))
+HANG_STEPS = int(os.environ.get("VERIF_HANG_STEPS", "4000000"))
+_hang = {"armed": False, "steps": 0, "hangs": 0, "where": Counter()}
+
+
+class CaseHang(BaseException):
+    """BaseException: 'except Exception' inside lena or a harness cannot swallow it."""
+
+
+def _hang_on_line(code, line):
+    if not code.co_filename.startswith(LENA_DIR):
+        return sys.monitoring.DISABLE
+    _hang["steps"] += 1
+    if _hang["steps"] % 1000 == 0:
+        _hang["where"][(code.co_filename[len(REPO) + 1:], code.co_qualname)] += 1
+    if _hang["steps"] > HANG_STEPS:
+        _hang["steps"] = 0
+        raise CaseHang()
+    return None
+
+
+def _hang_alarm(signum, frame):
+    mon = sys.monitoring
+    _hang["armed"] = True
+    _hang["steps"] = 0
+    _hang["where"].clear()
+    try:
+        mon.use_tool_id(HANG_TOOL, "rv-hang")
+    except ValueError:
+        pass
+    mon.register_callback(HANG_TOOL, mon.events.LINE, _hang_on_line)
+    mon.set_events(HANG_TOOL, mon.events.LINE)
+    mon.restart_events()
+
+
+def _hang_start():
+    import signal
+    signal.signal(signal.SIGALRM, _hang_alarm)
+    grace = HANG_GRACE_S if _hang["hangs"] < 2 else min(HANG_GRACE_S, 10.0)
+    signal.setitimer(signal.ITIMER_REAL, grace)
+
+
+def _hang_stop():
+    import signal
+    signal.setitimer(signal.ITIMER_REAL, 0)
+    if _hang["armed"]:
+        mon = sys.monitoring
+        mon.set_events(HANG_TOOL, 0)
+        mon.register_callback(HANG_TOOL, mon.events.LINE, None)
+        _hang["armed"] = False
+
+
 def lena_frame(tb):
     """Innermost frame of *tb* that is lena code: (relfile, func, line) or None."""
     found = None
@@ -87,8 +146,18 @@ def run_one(prop, recipe):
     obs = Obs()
     del _raise_log[:]
     obs.raise_log = _raise_log
+    _hang_start()
     try:
         prop.run_case(recipe, obs)
+    except CaseHang:
+        _hang_stop()
+        _hang["hangs"] += 1
+        top = _hang["where"].most_common(3)
+        where = top[0][0] if top else ("?", "?")
+        obs.fail("non-termination:%s:%s" % where,
+                 "the case was still running after %.0f s and then executed more than %d "
+                 "further lines of lena code without finishing; most of them in %s"
+                 % (HANG_GRACE_S, HANG_STEPS, top))
     except Exception as exc:  # pylint: disable=broad-except
         tb = sys.exc_info()[2]
         lf = lena_frame(tb)
@@ -98,6 +167,8 @@ def run_one(prop, recipe):
                      "exception escaped lena code: " + text)
         else:
             obs.note = "HARNESS-ERROR " + text
+    finally:
+        _hang_stop()
     return obs
 
 
@@ -114,6 +185,7 @@ def main(argv):
     if hasattr(prop, "setup_worker"):
         prop.setup_worker(tier)
     n = 0
+    max_case_s = 0.0
     nontrivial = set()
     violations = []
     counters = Counter()
@@ -124,8 +196,13 @@ def main(argv):
     for i, recipe in enumerate(prop.cases(tier, seed)):
         if i % K != k:
             continue
+        if _hang["hangs"] >= 4:
+            counters["cases_skipped_after_repeated_non_termination"] += 1
+            continue
         n += 1
+        t_case = time.perf_counter()
         obs = run_one(prop, recipe)
+        max_case_s = max(max_case_s, time.perf_counter() - t_case)
         counters.update(obs.counters)
         if obs.nontrivial:
             nontrivial.add(recipe_hash(recipe))
@@ -149,6 +226,7 @@ def main(argv):
         "lines": {f: sorted(ls) for f, ls in _lines.items()},
         "funcs": sorted(_funcs), "raises": _raises,
         "harness_errors": harness_errors, "extra": extra,
+        "max_case_s": round(max_case_s, 3),
     }
     with open(out, "w") as f:
         json.dump(res, f, default=repr)
